@@ -122,6 +122,21 @@ Outcome runSummary(const std::string& dir, bool esmry, std::string& stage) {
     }
 }
 
+void writeSmspec(vh::Rng& r, const std::string& dir, int nvec) {
+    namespace OS = EclIO::OutputStream;
+    for (auto& e : fs::directory_iterator(dir)) fs::remove_all(e.path());
+    OS::ResultSet rs{ dir, "CASE" };
+    OS::SummarySpecification::Parameters prm;
+    prm.add("TIME", ":+:+:+:+", 0, "DAYS");
+    for (int i = 1; i < nvec; ++i) { char b[16]; std::snprintf(b, sizeof b, "W%05d", i); prm.add(r.coin() ? "WBHP" : "WOPR", b, 0, "BARSA"); }
+    OS::SummarySpecification spec(rs, OS::Formatted{ false }, OS::SummarySpecification::UnitConvention::Metric, { 10, 10, 3 },
+                                  OS::SummarySpecification::RestartSpecification{ "", -1 },
+                                  Opm::TimeService::from_time_t(Opm::asTimeT(Opm::TimeStampUTC(Opm::TimeStampUTC::YMD{ 2019, 10, 1 }))));
+    spec.write(prm);
+}
+std::string be32(int v) { std::string s(4, '\0'); for (int k = 0; k < 4; ++k) s[k] = (char) ((((unsigned) v) >> (8 * (3 - k))) & 0xff); return s; }
+std::string rawHeader(const char* name8, int n, const char* type4) { return be32(16) + std::string(name8, 8) + be32(n) + std::string(type4, 4) + be32(16); }
+
 void makeSummaryRun(vh::Rng& r, const std::string& dir) {
     namespace OS = EclIO::OutputStream;
     for (auto& e : fs::directory_iterator(dir)) fs::remove_all(e.path());
@@ -255,6 +270,79 @@ std::string mutateBytes(std::string b, vh::Rng& r, bool formatted, std::string& 
     return b;
 }
 
+// a summary run whose UNSMRY holds the arrays named by `letters` (S = SEQHDR, M = MINISTEP, P = PARAMS): mostly
+// well-formed [S] (M P [S])* with a few edits; empty = nothing written (an empty data file is rejected in front of the scan)
+std::string makeScanCase(vh::Rng& rng, const std::string& sdir) {
+    // mostly well-formed [S] (M P [S])*, then a few edits
+    std::string letters;
+    if (rng.coin()) letters += 'S';
+    int steps = rng.range(0, 4);
+    for (int k = 0; k < steps; ++k) { letters += "MP"; if (rng.coin()) letters += 'S'; }
+    int edits = rng.pick(std::vector<int>{ 0, 0, 1, 1, 2 });
+    for (int e = 0; e < edits; ++e) {
+        int what = rng.range(0, 2); size_t pos = letters.empty() ? 0 : rng.below(letters.size() + 1);
+        if (what == 0 || letters.empty()) letters.insert(pos, 1, "SMP"[rng.range(0, 2)]);
+        else if (what == 1) letters.erase(std::min(pos, letters.size() - 1), 1);
+        else letters[std::min(pos, letters.size() - 1)] = "SMP"[rng.range(0, 2)];
+    }
+    if (letters.empty()) return letters;       // an empty data file is rejected by getListOfArrays, in front of the scan
+    const int nvec = 3;
+    writeSmspec(rng, sdir, nvec);
+    {
+        EclIO::EclOutput out(sdir + "/CASE.UNSMRY", false);
+        int seq = 0, mini = 0; float t = 0;
+        for (char c : letters) {
+            if (c == 'S') out.write("SEQHDR", std::vector<int>{ ++seq });
+            else if (c == 'M') out.write("MINISTEP", std::vector<int>{ mini++ });
+            else { out.write("PARAMS", std::vector<float>{ t, 1.0f, 2.0f }); t += 1; }
+        }
+    }
+    return letters;
+}
+// a one-step summary run whose PARAMS record is cut into blocks with edited length words; returns the model op
+std::string makeBlocksCase(vh::Rng& rng, const std::string& sdir) {
+    const int nParams = rng.pick(std::vector<int>{ 1, 3, 999, 1000, 1001, 1500, 2000, 2500 });
+    // canonical split, then edits of the length words
+    std::vector<int> heads;
+    for (int rest = nParams; rest > 0; rest -= 1000) heads.push_back(std::min(rest, 1000));
+    int edits = rng.pick(std::vector<int>{ 0, 1, 1, 2 });
+    for (int e = 0; e < edits; ++e) {
+        size_t pos = rng.below(heads.size());
+        switch (rng.range(0, 5)) {
+        case 0: heads[pos] = 1000; break;
+        case 1: heads[pos] = rng.range(0, 1000); break;
+        case 2: heads[pos] = rng.pick(std::vector<int>{ 1001, 2000, -1, -1000, 0 }); break;
+        case 3: heads.insert(heads.begin() + pos, rng.pick(std::vector<int>{ 1000, 1, 500 })); break;
+        case 4: if (heads.size() > 1) heads.erase(heads.begin() + pos); break;
+        default: heads[pos] = std::max(0, heads[pos] - 1); break;
+        }
+    }
+    // bytes of the blocks the reader will walk: length word, data, length word; never longer than the
+    // canonical record (a following header would be read from the surplus), padded with zero words
+    const long expect = 4L * nParams + 8L * ((nParams + 999) / 1000);
+    std::string blocks; std::vector<int> used;
+    for (int h : heads) {
+        long need = 8 + 4L * std::max(h, 0);
+        if ((long) blocks.size() + need > expect) break;
+        blocks += be32(4 * h); blocks += std::string(4 * (size_t) std::max(h, 0), '\0'); blocks += be32(4 * h);
+        used.push_back(h);
+    }
+    // a length word that did not fit is still seen by the reader when 4 bytes are left
+    if (used.size() < heads.size() && (long) blocks.size() + 4 <= expect) { blocks += be32(4 * heads[used.size()]); used.push_back(heads[used.size()]); }
+    const long pad = expect - (long) blocks.size();
+    blocks += std::string((size_t) pad, '\0');
+    writeSmspec(rng, sdir, nParams);
+    std::string file = rawHeader("SEQHDR  ", 1, "INTE") + be32(4) + be32(1) + be32(4)
+                     + rawHeader("MINISTEP", 1, "INTE") + be32(4) + be32(0) + be32(4)
+                     + rawHeader("PARAMS  ", nParams, "REAL") + blocks;
+    vh::spit(sdir + "/CASE.UNSMRY", file);
+    std::string op = "esmryscan.blocks 1000 " + std::to_string(nParams);
+    for (int h : used) op += " " + std::to_string(h);
+    for (long z = 0; z < std::min(pad / 4, 4L); ++z) op += " 0";
+    // (a reader that runs off the end of the file is not compared: the length word is then unspecified)
+    return op;
+}
+
 void onAlarm(int) { const char msg[] = "\nVERIF-TIMEOUT\n"; (void) !write(2, msg, sizeof msg - 1); _exit(124); }
 
 } // namespace
@@ -314,6 +402,35 @@ int main(int argc, char** argv) {
             sink.emit("eclbin.count " + vh::hex(bytes), ans);
             sink.count(ans == "err" ? "verdict.err" : "verdict.ok");
             std::istringstream ks(kinds); std::string k; while (std::getline(ks, k, ',')) if (!k.empty()) sink.count("mutation." + k);
+        }
+        // summary data files: the time-step scan of the ESmry constructor over arbitrary lists of arrays,
+        // and the PARAMS block reader of ESmry::loadData() over arbitrary length words (Model/ESmryScan.lean)
+        {
+            const std::string sdir = g_outdir + "/tmp/scan";
+            fs::create_directories(sdir);
+            const int ns = tier == "thorough" ? 3000 : 400;
+            for (int i = 0; i < ns; ++i) {
+                const std::string letters = makeScanCase(rng, sdir);
+                if (letters.empty()) continue;
+                std::string ans;
+                try {
+                    EclIO::ESmry sm(sdir + "/CASE.SMSPEC", false);
+                    ans = "ok " + std::to_string(sm.numberOfTimeSteps()) + " seq=";
+                    const auto at = sm.get_at_rstep("TIME");
+                    for (size_t k = 0; k < at.size(); ++k) ans += (k ? "," : "") + std::to_string((long) at[k]);
+                } catch (const std::exception&) { ans = "err"; }
+                sink.emit("esmryscan.scan 0 2147483647 " + letters, ans);
+                sink.count(ans == "err" ? "scan.err" : "scan.ok");
+            }
+            const int nb = tier == "thorough" ? 1500 : 250;
+            for (int i = 0; i < nb; ++i) {
+                const std::string op = makeBlocksCase(rng, sdir);
+                std::string ans;
+                try { EclIO::ESmry sm(sdir + "/CASE.SMSPEC", false); sm.loadData(); ans = "ok"; }
+                catch (const std::exception&) { ans = "err"; }
+                sink.emit(op, ans);
+                sink.count(ans == "err" ? "blocks.err" : "blocks.ok");
+            }
         }
         sink.writeStats(g_outdir + "/stats.json");
         return 0;
@@ -431,6 +548,25 @@ int main(int argc, char** argv) {
             ++nfiles;
             g_stats[std::string(esmry ? "esmryfile" : "smryfile") + ".outcome." + (o == Outcome::Returned ? "returned" : o == Outcome::StdException ? "exception@" + stage : "other")]++;
             if (o == Outcome::Other) log.fail(std::string("summary.nonstd-exception.") + stage, "mutated " + victim + " mutations=" + kinds); else log.ok();
+        }
+    }
+
+    if (only.empty() || only == "files") {
+        // directed summary cases (the generators of the esmryscan correspondence): arbitrary array lists and
+        // arbitrary PARAMS length words must end in a result or an exception
+        const std::string sdir = g_outdir + "/tmp/scan";
+        fs::create_directories(sdir);
+        const int n = tier == "thorough" ? 3000 : 300;
+        for (int i = 0; i < n; ++i) {
+            const bool blocks = i % 2 == 1;
+            const std::string what = blocks ? makeBlocksCase(rng, sdir) : makeScanCase(rng, sdir);
+            if (what.empty()) continue;
+            if (fs::exists(sdir + "/CASE.UNSMRY")) vh::spit(g_outdir + "/current_input.bin", vh::slurp(sdir + "/CASE.UNSMRY"));
+            std::string stage; alarm(30);
+            Outcome o = runSummary(sdir, false, stage);
+            alarm(0); ++nfiles;
+            g_stats[std::string(blocks ? "smryblocks" : "smryscan") + ".outcome." + (o == Outcome::Returned ? "returned" : o == Outcome::StdException ? "exception@" + stage : "other")]++;
+            if (o == Outcome::Other) log.fail(std::string("summary.nonstd-exception.") + stage, what); else log.ok();
         }
     }
 
